@@ -220,8 +220,10 @@ def r3_lookup_order(ctx: Ctx) -> None:
                       detail={"method": f"{cls}.{meth}", "getattr_at": pos_attr, "subscript_at": pos_item})
             # the fallback access lies in (or after) an except clause of the first access
             rets = astq.returns(fi.node)
-            last = rets[-1] if rets else None
-            und = last is not None and last.value is not None and "self.undefined(obj=obj, name=" in ast.unparse(last.value)
+            # the undefined object is what remains when both accesses failed: a return of it
+            # lies after both (as the last statement, or in the handler of the second access)
+            later = max(pos_attr, pos_item)  # type: ignore[type-var]
+            und = any(r.value is not None and "self.undefined(obj=obj, name=" in ast.unparse(r.value) and (r.lineno, r.col_offset) > later for r in rets)
             ctx.check(und, f"{cls}.{meth}:undefined", f"{cls}.{meth}", "final undefined", f"{meth} does not end by returning self.undefined(obj=obj, name=...)", fi.loc())
             if meth == "getitem":
                 # the attribute fallback only applies to string arguments
